@@ -517,6 +517,9 @@ func parseGetValue(text string) map[string]string {
 type SolveOpts struct {
 	Timeout  time.Duration
 	AllThree bool // thorough: run every solver, require no disagreement
+	// ShortOnly: obligations the baseline already has as undecided get the
+	// first stage only in the quick tier (their status cannot raise an alarm).
+	ShortOnly func(name string) bool
 }
 
 var solverSem = make(chan struct{}, 14)
@@ -546,6 +549,10 @@ func Solve(name, query string, opts SolveOpts) (SolverResult, []SolverResult) {
 		r := runSolver(ctx, "z3-new", file, short)
 		<-solverSem
 		if r.Status == "unsat" || r.Status == "sat" {
+			return r, []SolverResult{r}
+		}
+		if opts.ShortOnly != nil && opts.ShortOnly(name) {
+			r.Status = "unknown"
 			return r, []SolverResult{r}
 		}
 	}
